@@ -33,11 +33,13 @@ def _per_rank_path(db, chk, where2, TR, r, calls, ptag):
         comp = to_term(r.ret.items[1])
         check_term(chk, "C04.R2-arithmetic", "2nd result: compute_time = measure of the union (merge_kernel_intervals) of the COMPUTATION rows" + ptag, where2, comp, [busy_term(M2)],
                    "the overlap groups of ALL device rows are not the overlap groups of the computation rows: re-using them counts gaps between computation kernels that other kernels bridge")
-    elif not isinstance(r.ret, PyTuple) or len(r.ret.items) != 4 or len(calls) != 2:
+    elif not isinstance(r.ret, PyTuple) or len(r.ret.items) != 4 or len(calls) < 2:
         chk.ob("C04.R2-arithmetic", "idle_time_per_rank: two merges, four results" + ptag, None, where2,
                found=f"merges={len(calls)}")
     else:
-        c1, c2 = calls
+        # the two merges the property is about: all device rows, and the COMPUTATION rows (further merges only matter through the result terms below)
+        c1 = calls[0]
+        c2 = next((c_ for c_ in calls[1:] if "'COMPUTATION'" in T.show(c_["arg_ctx"][1]) and "== 0]" in T.show(c_["arg_ctx"][1]) and not T.show(c_["arg_ctx"][1]).startswith("~")), calls[1])
         P1 = c1["arg_ctx"][1]
         # device predicate: truth table over the stream values the property allows
         tt = {}
@@ -74,6 +76,8 @@ def _per_rank_path(db, chk, where2, TR, r, calls, ptag):
 
 
 def run(db, chk) -> None:
+    from ..specs.discipline import check_shared_trace_untouched
+    check_shared_trace_untouched(db, chk, "C04.R-shared-trace")
     from ..specs.discipline import check_facade_stateless
     check_facade_stateless(db, chk, "C04.R-facade-stateless", ['get_temporal_breakdown'])
     from ..specs.discipline import check_stateless
